@@ -57,3 +57,7 @@ func (ps *PeerSync) VerifIntervals() (poll, request, timeout time.Duration) {
 
 // VerifVersion reports the protocol version this instance advertises.
 func (ps *PeerSync) VerifVersion() uint64 { return ps.version.Value() }
+
+// VerifNoSync turns off fsync on the underlying bbolt file (the harness does
+// not test durability against power loss; every read still goes to the file).
+func (s *Store) VerifNoSync() { s.db.NoSync = true }
